@@ -15,7 +15,7 @@ def check(tier, seed):
         "ghost falling factorial ff with the law ff(n,a+b) = ff(n,a) ff(n-a,b), ff(n,0) = 1, ff(n,1) = n (instances generated per obligation)",
     ]
     d.not_decided += [
-        "_expand_operators/_combine_operators/__sub__ (= add of neg)/from_expr/as_expr are not under deductive contract: "
+        "__sub__ (= add of neg)/from_expr/as_expr are not under deductive contract: "
         "they are exercised by the bounded battery (matrix representation) only",
         "Function arguments, non-integer powers, _poly_simplify / simplify (A-SY2), printing",
         "associativity / distributivity / adjoint-reverses-products are consequences of faithfulness of _multiply_op, _multiply_expr and __mul__ "
@@ -28,7 +28,8 @@ def check(tier, seed):
                      "using the callee contracts.  _eval_adjoint is proved to be the adjoint with respect to the Fock inner product (matrix elements between every pair of physical "
                      "occupation states, norms of the unnormalised boson basis and Jordan-Wigner signs included); __neg__ negates every amplitude; __add__ adds each term's coefficient "
                      "to the entry of its own powers (so the result denotes the sum, by linearity of a term in its coefficient).  Number of modes is concrete per unit (bounded), "
-                     "everything else symbolic.  __pow__ with a non-negative integer exponent: exponent 0 constructs the identity form, a positive exponent returns the exp-fold "
+                     "everything else symbolic.  _expand_operators keeps every coefficient and puts each old power at the position of its operator in the new list (0 for new operators); _combine_operators expands both operands to "
+                     "one list, the canonically sorted union (or returns them unchanged for equal lists).  __pow__ with a non-negative integer exponent: exponent 0 constructs the identity form, a positive exponent returns the exp-fold "
                      "product of self with itself (loop rule with invariant result = self^(j+1), any exponent), the product being the contract of __mul__.")
     d.run_battery("nof_battery.py", ["algebra", "convert"], "<= 4 modes of mixed statistics, powers <= 2, Fock cutoff 6-9, 72 random triples + 80 single-term forms (powers 0-3, Fock cutoff up to 14) + 14 expressions, fixed seeds")
     return d.finish(level="proof", trusted_base=["contracts/nof.py", "concretiser/fock.py (battery oracle only)"])
